@@ -43,11 +43,12 @@ class C05(Prop):
                   "is_empty = true implies that nothing published when it loaded the tail (520) sits in any block reachable from that tail; "
                   "is_empty = false implies some slot is published. (7) C05_block_order: the slice handed out at 506 is slot 0..len-1 and slot order is claim order (fetch_add "
                   "returns and bumps the write index, which never decreases and bounds every claimed index). (8) C05_spec_ok_sound: Prop-level "
-                  "meaning of spec_ok = true for the clauses without trace positions. (9) C05_spec_ok_on_model_partial, the checker on the model's "
+                  "meaning of spec_ok = true for the clauses without trace positions. (9) C05_spec_ok_on_model: THE CONJUNCTION - the trace-level checker spec_ok "
+                  "(all of S0-S5) accepts the model's run of every case outside the late-claim class. Its clauses, on the model's "
                   "own run of every case (trace-indexed ledger, Common/InterleaveTrace): no anomaly and results shaped like the programs (S0), no "
                   "identity handed to clears twice and no single read handed an identity twice (S1, threads), every slice handed to a thread's "
                   "callback has its 506 position and every value in it is in the push table with a strictly earlier slot-write position (S2: "
-                  "written-before-read and no fabrication on trace positions). C05_spec_ok_on_model_partial2 adds, again for every case: the final "
+                  "written-before-read and no fabrication on trace positions); C05_spec_clauses_on_model_every_case adds, again for every case: the final "
                   "sequential read is duplicate-free and every value of it is in the push table with a slot-write position; claim positions "
                   "strictly increase along every slice, thread slices and final read (S4; per-block claim ledger) - i.e. all of spec_run except "
                   "S3 and S5. C05_final_read_finishes: with the state-derived fuel Exec.final_fuel the final reader always completes when all threads "
@@ -65,26 +66,27 @@ class C05(Prop):
                   "has its 503 position below the call's last read, Spec.empty_end). C05_spec_is_empty_completeness_on_model_no_clear: both "
                   "is_empty halves. C05_spec_ok_on_model_no_clear: THE CONJUNCTION for programs without clear_with - spec_ok (all of S0-S5) "
                   "accepts the model's run of every case whose programs contain no clear_with (such a case is never in the late-claim class: "
-                  "C05_no_clear_not_late_claim). "
+                  "C05_no_clear_not_late_claim). C05_spec_completeness_on_model: clause S3 on EVERY case outside the late-claim class when the run "
+                  "is done - every data_with and is_empty = true call accounts for every push published before its start (handed to the call, "
+                  "or in the handed of a clear call whose rcas lies before the start), every is_empty = false call has a publication before its "
+                  "last read; proved with a detach ledger on the trace (the CAS of a clearing walk is the last 541 position of its thread and "
+                  "lies below all 506 positions of the call; last_below p541 of a completed call's first 506 position is that CAS), an "
+                  "attribution predicate that is stable under every step outside the class and covers every published slot of a block not "
+                  "reachable from tail, and the snapshot / is_empty invariants run along the trace with the obligation set 'published before the "
+                  "start and not attributed before the start'. "
                   "The open finding is a theorem "
                   "(C05_late_claim_refutes) and so are the two repaired defects (the model of the code before each fix violates spec_ok outside "
                   "the late-claim class, the model after the fix does not). Tied to /repo by (i) replaying generated schedules on the real "
                   "AtomicBucket<Val> through yield points at every shared-memory access and comparing step trace, every slice handed to every "
                   "callback, every is_empty result and a final sequential read, with the executable property spec_ok evaluated on the "
                   "implementation's outputs, and (ii) a free-running stress engine on real threads judged by the same property.")
-    level_note = ("NOT proved: C05_spec_completeness_on_model (clause S3 of the trace-level checker) for cases WITH clear_with, and therefore the "
-                  "conjunction C05_spec_ok_on_model in general. Proved: the conjunction for every case whose programs contain no clear_with "
-                  "(C05_spec_ok_on_model_no_clear; no class hypothesis, C05_no_clear_not_late_claim). For every case, clears or not, these clauses are proved on the "
-                  "model's run: S0, S1, S2, S4 (C05_spec_ok_on_model_partial2), S5 outside the late-claim class when the run is done "
-                  "(C05_spec_conservation_on_model), and of S3 the is_empty = false clause "
-                  "(C05_spec_is_empty_false_needs_publication_on_model; conditional no-op rule of Common/InterleaveTraceCond, Spec.empty_end "
-                  "with explicit state, 'a set bitmap bit implies a 503 position'). In no-clear cases also: S3 for data_with calls "
-                  "(C05_spec_snapshot_completeness_on_model_no_clear) and for is_empty = true calls "
-                  "(C05_spec_is_empty_true_completeness_on_model_no_clear). "
-                  "Missing of S3: data_with and is_empty = true calls in cases WITH clears (the 541 positions, the "
-                  "alignment of clear calls with their rcas, a detach ledger - which 541 detached which block - for the `clears` disjunct of "
-                  "`accounts`); for those S3 is tied to the configuration-level "
-                  "theorems only by evaluation (spec_ok on every replayed schedule, model agreeing step by step, stress oracle). Corrected oracle defect: "
+    level_note = ("Nothing of the declared statement is left unproved: C05_spec_ok_on_model (spec_ok accepts the model's run of every case outside "
+                  "the late-claim class) is proved, from C05_spec_clauses_on_model_every_case (S0, S1, S2, S4, every case, in or out of the class), "
+                  "C05_spec_completeness_on_model (S3, outside the class, run done) and C05_spec_conservation_on_model (S5, outside the class, run "
+                  "done). Inside the late-claim class only S0, S1, S2, S4 and the is_empty = false clause of S3 are proved (S3 for data_with / "
+                  "is_empty = true and S5 are false there: C05_late_claim_refutes). C05_spec_ok_sound gives a Prop reading only for the clauses "
+                  "without trace positions; the position-based clauses (S2, S3, S4) are stated as the checker's booleans. The model is tied to "
+                  "/repo by the correspondence check and the stress engine, not by proof. Corrected oracle defect: "
                   "Exec.final_data's constant fuel (400) replaced by 4 * blocks + 8, proved sufficient. The conservation theorem speaks about "
                   "configurations (slots, ownership, per-thread delivered lists); its reading as 'completed = delivered (+) resident' uses "
                   "C05_no_fabrication / R3 (every completed push call has a published slot). Open known finding C05-late-claim (class 1 = the "
